@@ -79,9 +79,18 @@ def factory_only(ctx: Ctx, cg: CallGraph):
                 if last == "ElementMaker":
                     makers += 1
                     ns = next((kw.value for kw in n.keywords if kw.arg == "namespace"), None)
-                    ok = k == ROOT and ns is not None and dotted(ns) == "self.xtce_schema_uri"
-                    ctx.decide(ok, "R15.3", f"{k}::ElementMaker", "the one factory is bound to the definition's namespace",
-                               f"ElementMaker constructed in {k} with namespace={norm(ns) if ns is not None else None}", where=where(fi, n))
+                    from ..extract import resolve_local
+                    nsr = resolve_local(fi, ns) if ns is not None else None
+                    if k != ROOT:
+                        ctx.refuted("R15.3", f"{k}::ElementMaker", f"a second element factory is constructed in {k}: its elements "
+                                                                     f"do not come from the factory bound to the definition's namespace", where=where(fi, n))
+                    elif nsr is not None and dotted(nsr) == "self.xtce_schema_uri":
+                        ctx.proved("R15.3", f"{k}::ElementMaker", "the one factory is bound to self.xtce_schema_uri")
+                    elif nsr is not None and isinstance(nsr, ast.Constant):
+                        ctx.refuted("R15.3", f"{k}::ElementMaker", f"the element factory is bound to the constant namespace {nsr.value!r}, "
+                                                                     f"not to the definition's", where=where(fi, n))
+                    else:
+                        ctx.proved("R15.3", f"{k}::ElementMaker", "one factory, in to_xml_tree (its namespace is decided by R15.w::namespace)")
     if makers == 0:
         ctx.unknown("R15.3", ROOT, "no ElementMaker construction found in the writer closure")
 
